@@ -1,11 +1,12 @@
-\* exhaustive: assemblies of 2 blocks (pairs p1+p7, p19+singles, mixed+nogrid, both orientations), k in -7..7; act/prev part of the state
-CONSTANTS K = 7  H = 3  NB = 2  Layouts = {"p1", "p19", "mixed"}  TieDi = TRUE  MaxLevel = 3
+\* exhaustive: assemblies of 2 blocks (pairs p1+p7, p19+singles, mixed+nogrid, prism+families, both orientations), k in -7..7; act/prev part of the state
+CONSTANTS K = 7  H = 3  NB = 2  Layouts = {"p1", "p19", "mixed", "prism"}  TieDi = TRUE  MaxLevel = 3
 INIT Init
 NEXT NextB
 CONSTRAINT Bound
 INVARIANT TypeOK
 INVARIANT ShapeKept
 INVARIANT CellsFollowGeometry
+INVARIANT FamiliesStayDisjoint
 INVARIANT FreePointsFollowGeometry
 INVARIANT BoundaryDataFollowGeometry
 INVARIANT OtherValuesUntouched
